@@ -50,6 +50,7 @@ def one(args):
     stdin_file = len(args) > 3 and args[3] is True
     empty_file = len(args) > 3 and args[3] == 'emptyfile'
     neg_dates = len(args) > 3 and args[3] == 'negdates'
+    empty_pipe = len(args) > 3 and args[3] == 'emptypipe'
     f = dict(zip(NAMES, bits))
     d = tempfile.mkdtemp(prefix='c18_')
     try:
@@ -74,7 +75,7 @@ def one(args):
                 p = subprocess.run(argv, cwd=d, env=env, stdin=fh, capture_output=True, timeout=60)
             os.remove(os.path.join(d, 'stdin.log'))
         else:
-            p = subprocess.run(argv, cwd=d, env=env, input=(LINE if f['stdin'] else None), stdin=(None if f['stdin'] else subprocess.DEVNULL),
+            p = subprocess.run(argv, cwd=d, env=env, input=((b'' if empty_pipe else LINE) if f['stdin'] else None), stdin=(None if f['stdin'] else subprocess.DEVNULL),
                                capture_output=True, timeout=60)
         files = sorted(x for x in os.listdir(d) if x != 'in.log')
         return idx, p.returncode, p.stdout[-300:], p.stderr[-300:], files
@@ -145,6 +146,12 @@ def run(chk, replay=None):
         if f['start'] != f['end'] and rule(dict(f, start=True, end=True)) is not None: lone.append((i, bits))
     with ThreadPoolExecutor(max_workers=16) as ex:
         results_n = list(ex.map(one, [(300000 + i, bits, lst.port, 'negdates') for i, bits in lone]))
+    # a pipe on stdin that delivers NOTHING is still piped input (one of the sources): the combinations that have stdin AND a second source, again with an empty pipe -
+    # each of them must be rejected, without side effects, exactly as with a pipe that carries a log
+    two_sources = [(i, bits) for i, bits in enumerate(combos) if bits[1] and (bits[0] or any(bits[6:12]))]
+    two_sources = two_sources[:: max(1, len(two_sources) // 500)]
+    with ThreadPoolExecutor(max_workers=16) as ex:
+        results_p = list(ex.map(one, [(500000 + i, bits, lst.port, 'emptypipe') for i, bits in two_sources]))
     # the VALUES behind the switches (empty strings, zero / negative dates, an empty file argument): a seeded sample of value vectors through the
     # CLI against the model's reading of them (Cli.abstract: non-empty string, non-zero date, len(args) == 1, --redactFieldNames given at all)
     import random as _random
@@ -191,6 +198,16 @@ def run(chk, replay=None):
         if not rejected(rc, se, net): chk.violate('a start / end date given alone (negative value) was not rejected', case, tags=['accepted', 'negdates'])
         if effects: chk.violate('rejection decided from the flags had side effects: %s' % effects, case, tags=['sideeffect', 'negdates'] + effects)
     chk.streams.append({'stream': 'combinations that only the date-pair rule rejects, with negative date values', 'cases': len(lone)})
+    for (idx, rc, so, se, files), (i, bits) in zip(results_p, two_sources):
+        f = dict(zip(NAMES, bits))
+        chk.count(); chk.nontriv((bits, 'emptypipe'))
+        net = lst.hits.get('run%d' % idx, 0)
+        effects = sorted(({'out'} if ('out.log' in files or any(x.startswith('out.log.') for x in files)) else set()) | ({'key'} if 'key.file' in files else set()) | ({'net'} if net else set()))
+        case = {'flags': [n for n in NAMES if f[n]], 'stdin': 'a pipe that delivers no byte', 'rc': rc, 'stderr': se.decode('utf-8', 'replace'), 'files': files, 'network_attempts': net}
+        if crashed(rc, se): chk.violate('the command crashed', case, tags=['status', 'emptypipe'])
+        elif rc == 0 or net: chk.violate('two input sources (one of them an empty pipe on stdin) were accepted', case, tags=['accepted', 'emptypipe'])
+        if effects: chk.violate('rejection decided from the flags had side effects: %s' % effects, case, tags=['sideeffect', 'emptypipe'] + effects)
+    chk.streams.append({'stream': 'two input sources, stdin being a pipe that delivers nothing', 'cases': len(two_sources)})
     for (idx, rc, so, se, files), (i, bits) in zip(results_e, file_combos):
         f = dict(zip(NAMES, bits))
         chk.count(); chk.nontriv((bits, 'emptyfile'))
